@@ -81,6 +81,14 @@ def translate():
     return T.run()
 
 
+def function_status():
+    """what the function translator said on this run (Gen/functions.json)"""
+    try:
+        return json.loads((LEAN / "Univers" / "Gen" / "functions.json").read_text())
+    except Exception:  # noqa: BLE001
+        return {}
+
+
 def lake_build(targets, keep_going=True):
     """Build `targets` under a lock. Returns (ok, log, failed_modules)."""
     lock = open(LEAN / ".build.lock", "w")
